@@ -58,9 +58,13 @@ static int arch_result(void) { u8 r = n_arch < MAXIT * 4 ? arch_ok[n_arch] : 0; 
 static void ordinary_op(void) { CHECK(!dangerous_made, "C10: no other filesystem operation after the first dangerous symlink came into existence"); }
 
 int lha_arch_mkdir(char *p, unsigned int m) { (void) m; (void) cur_idx(p); ordinary_op(); return arch_result(); }
-int lha_arch_chmod(char *p, int m) { (void) m; (void) cur_idx(p); ordinary_op(); return arch_result(); }
-int lha_arch_chown(char *p, int u, int g) { (void) u; (void) g; (void) cur_idx(p); ordinary_op(); return arch_result(); }
-int lha_arch_utime(char *p, unsigned int t) { (void) t; (void) cur_idx(p); ordinary_op(); return arch_result(); }
+/* chmod / chown / utime FOLLOW symbolic links: applied to a path on which this run has just made a link they would change the
+ * link's target, which may lie anywhere */
+static u8 is_link[M];
+static void meta_op(int i) { if (i >= 0) CHECK(!is_link[i], "C10: no mode / owner / time call on a path where this run created a symbolic link (such calls follow the link)"); }
+int lha_arch_chmod(char *p, int m) { (void) m; meta_op(cur_idx(p)); ordinary_op(); return arch_result(); }
+int lha_arch_chown(char *p, int u, int g) { (void) u; (void) g; meta_op(cur_idx(p)); ordinary_op(); return arch_result(); }
+int lha_arch_utime(char *p, unsigned int t) { (void) t; meta_op(cur_idx(p)); ordinary_op(); return arch_result(); }
 LHAFileType lha_arch_exists(char *p) { (void) cur_idx(p); return (LHAFileType) (arch_result() ? LHA_FILE_DIRECTORY : LHA_FILE_NONE); }
 FILE *lha_arch_fopen(char *p, int u, int g, int perms)
 {
@@ -80,6 +84,7 @@ int lha_arch_symlink(char *p, char *target)
 	int i = cur_idx(p), ok = arch_result();
 	if (i < 0) return 0;
 	CHECK(target == rd.curr_file->symlink_target && target != NULL, "C06: link is created with its recorded target");
+	if (ok) is_link[i] = 1;
 	if (ref_dangerous(target)) {
 		CHECK(env_exhausted(), "C10: dangerous symlink created only after every member of the input was processed");
 		CHECK(rd.dir_stack == NULL, "C10: dangerous symlink created only after all directory metadata was applied");
